@@ -367,7 +367,8 @@ class TransactionContext:
         try:
             match = re.search(pattern, text, re.IGNORECASE)
             if match and match.groups():
-                return match.group(1)
+                # group(1) is None when the first group did not take part in the match
+                return match.group(1) or ''
             return ''
         except re.error as e:
             raise ExpressionError(f"Invalid regex pattern in extract(): {e}")
